@@ -136,6 +136,13 @@ fn make(args: &[&str]) -> Vec<i64> {
             if style == 0 && a >> 28 == 3 {
                 at.set_is_blinking(true);
             }
+            // style 3: art-like rows (content on the left, trailing default blanks, blank last row): the writers'
+            // run-length / trimming paths end the data with repeat records
+            let (ch, at) = if style == 3 && (x > w / 3 + (y * 7) % (w / 2 + 1) || y + 1 == h && h > 1) {
+                (32, TextAttribute::default())
+            } else {
+                (ch, at)
+            };
             buf.layers[0].set_char((x, y), AttributedChar::new(char::from_u32(ch).unwrap(), at));
             i += 1;
         }
